@@ -533,7 +533,18 @@ fn promotion_and_reducers() -> (Vec<(String, Tree)>, Vec<String>) {
         }
         ok.push((format!("union([{}])", scripts.join(", ")), Union { input: trees.clone() }.into()));
         ok.push((format!("intersection(#{{ input: [{}] }})", scripts.join(", ")), Intersection { input: trees.clone() }.into()));
+        // a single ARRAY argument in positional and chained form, for both reducers
+        // (for union the array-coerces-to-union rule gives the same tree by accident;
+        // for intersection it does not)
+        ok.push((format!("intersection([{}])", scripts.join(", ")), Intersection { input: trees.clone() }.into()));
+        ok.push((format!("union(#{{ input: [{}] }})", scripts.join(", ")), Union { input: trees.clone() }.into()));
+        if k >= 2 {
+            ok.push((format!("[{}].intersection()", scripts.join(", ")), Intersection { input: trees.clone() }.into()));
+            ok.push((format!("[{}].union()", scripts.join(", ")), Union { input: trees.clone() }.into()));
+        }
     }
+    ok.push(("intersection([])".into(), Intersection { input: vec![] }.into()));
+    ok.push(("union([])".into(), Union { input: vec![] }.into()));
     ok.push((
         format!("[x, (y + 1)].move(#{{ offset: [1, 1, 1] }})"),
         Move { shape: Union { input: vec![Tree::x(), Tree::y() + 1.0] }.into(), offset: Vec3::new(1.0, 1.0, 1.0) }.into(),
